@@ -238,18 +238,48 @@ pub struct BtsForge {
     pub guard: Option<F>,
 }
 
+/// A role model as named segments, in allocation order. When the honest
+/// vector does not fit the honest witness table as a whole, `fit` looks for
+/// the sub-sequence of segments that does (a gadget that no longer emits one
+/// of its parts), and the same selection is applied to adversarial vectors.
+pub type SegVec = Vec<(&'static str, Vec<F>)>;
+
+pub fn flatten(segs: &SegVec, mask: &[bool]) -> Vec<F> {
+    segs.iter()
+        .zip(mask)
+        .filter(|(_, m)| **m)
+        .flat_map(|((_, v), _)| v.iter().copied())
+        .collect()
+}
+
+/// greedy in-order selection of segments whose concatenation equals `slice`
+pub fn fit(segs: &SegVec, slice: &[F]) -> Option<Vec<bool>> {
+    let mut pos = 0;
+    let mut mask = Vec::with_capacity(segs.len());
+    for (_, v) in segs {
+        if pos + v.len() <= slice.len() && slice[pos..pos + v.len()] == v[..] && !v.is_empty() {
+            mask.push(true);
+            pos += v.len();
+        } else if v.is_empty() {
+            mask.push(true);
+        } else {
+            mask.push(false);
+        }
+    }
+    (pos == slice.len()).then_some(mask)
+}
+
+pub fn dropped_segments(segs: &SegVec, mask: &[bool]) -> Vec<&'static str> {
+    segs.iter().zip(mask).filter(|(_, m)| !**m).map(|((n, _), _)| *n).collect()
+}
+
 /// witnesses allocated by `bind_truncation_split(input, low, nb)` for an
 /// attacker-chosen split (high, low)
-pub fn bts_vec(high: U256, low: F, nb: usize, forge: &BtsForge) -> Vec<F> {
+pub fn bts_segs(high: U256, low: F, nb: usize, forge: &BtsForge) -> SegVec {
     let hb = 255 - nb;
     let high_f = f_of(high);
     let (r_high, r_low) = modulus_split(nb as u32);
-    let mut v = vec![high_f];
-    v.extend(rc_vec(hb, high));
-    v.push(f_pow2(nb as u32) * high_f + low);
     let diff = f_of(r_high) - high_f;
-    v.push(diff);
-    v.extend(rc_vec(hb, f_int(&diff)));
     let inverse = forge
         .inverse
         .unwrap_or_else(|| diff.invert().unwrap_or(F::zero()));
@@ -257,24 +287,39 @@ pub fn bts_vec(high: U256, low: F, nb: usize, forge: &BtsForge) -> Vec<F> {
     let is_top = forge.is_top.unwrap_or(F::one() - product);
     let rlml = f_of(r_low) - low;
     let guard = forge.guard.unwrap_or(is_top * rlml);
-    // product and is_top are gate outputs: a forged is_top needs the product
-    // wire consistent with its own gate (product = diff*inverse); keep both
-    v.push(inverse);
-    v.push(product);
-    v.push(is_top);
-    v.push(rlml);
-    v.push(guard);
-    v.extend(rc_vec(nb, f_int(&guard)));
-    v
+    vec![
+        ("high", vec![high_f]),
+        ("range(high)", rc_vec(hb, high)),
+        ("recomposed", vec![f_pow2(nb as u32) * high_f + low]),
+        ("diff", vec![diff]),
+        ("range(diff)", rc_vec(hb, f_int(&diff))),
+        ("inverse", vec![inverse]),
+        ("product", vec![product]),
+        ("is_top", vec![is_top]),
+        ("r_low - low", vec![rlml]),
+        ("guard", vec![guard]),
+        ("range(guard)", rc_vec(nb, f_int(&guard))),
+    ]
+}
+
+pub fn bts_vec(high: U256, low: F, nb: usize, forge: &BtsForge) -> Vec<F> {
+    let s = bts_segs(high, low, nb, forge);
+    let m = vec![true; s.len()];
+    flatten(&s, &m)
 }
 
 /// witnesses allocated by `component_truncate::<N>(x)` for a chosen split
-pub fn truncate_vec(n: usize, high: U256, low: U256, forge: &BtsForge) -> Vec<F> {
+pub fn truncate_segs(n: usize, high: U256, low: U256, forge: &BtsForge) -> SegVec {
     let low_f = f_of(low);
-    let mut v = vec![low_f];
-    v.extend(rc_vec(n, low));
-    v.extend(bts_vec(high, low_f, n, forge));
+    let mut v: SegVec = vec![("low", vec![low_f]), ("range(low)", rc_vec(n, low))];
+    v.extend(bts_segs(high, low_f, n, forge));
     v
+}
+
+pub fn truncate_vec(n: usize, high: U256, low: U256, forge: &BtsForge) -> Vec<F> {
+    let s = truncate_segs(n, high, low, forge);
+    let m = vec![true; s.len()];
+    flatten(&s, &m)
 }
 
 /// honest split of a canonical value at bit n
@@ -315,9 +360,9 @@ fn quad_op(a: &F, b: &F, xor: bool) -> F {
 }
 
 /// witnesses allocated by `append_logic_component::<P>`
-pub fn logic_vec(pairs: usize, xor: bool, ch: &LogicChoice) -> Vec<F> {
+pub fn logic_segs(pairs: usize, xor: bool, ch: &LogicChoice) -> SegVec {
     let four = F::from(4u64);
-    let mut v = Vec::new();
+    let mut rows = Vec::new();
     let (mut la, mut ra, mut oa) = (F::zero(), F::zero(), F::zero());
     for i in 0..pairs {
         let qa = ch.a_quads[i];
@@ -331,13 +376,20 @@ pub fn logic_vec(pairs: usize, xor: bool, ch: &LogicChoice) -> Vec<F> {
         la = la * four + qa;
         ra = ra * four + qb;
         oa = oa * four + qd;
-        v.extend([la, ra, prod, oa]);
+        rows.extend([la, ra, prod, oa]);
     }
+    let mut v: SegVec = vec![("logic rows", rows)];
     if pairs > 0 {
-        v.extend(bts_vec(ch.a_split_high, la, 2 * pairs, &ch.forge_a));
-        v.extend(bts_vec(ch.b_split_high, ra, 2 * pairs, &ch.forge_b));
+        v.extend(bts_segs(ch.a_split_high, la, 2 * pairs, &ch.forge_a));
+        v.extend(bts_segs(ch.b_split_high, ra, 2 * pairs, &ch.forge_b));
     }
     v
+}
+
+pub fn logic_vec(pairs: usize, xor: bool, ch: &LogicChoice) -> Vec<F> {
+    let s = logic_segs(pairs, xor, ch);
+    let m = vec![true; s.len()];
+    flatten(&s, &m)
 }
 
 pub fn honest_logic_choice(a: &F, b: &F, pairs: usize) -> LogicChoice {
